@@ -97,6 +97,8 @@ class C10(runner.Check):
         add("tikhonov", "absolute", None, cv=[[0, 2, 4], [1, 3]], Q=("H122", "R35"), ordered=True, cost=4)  # unequal folds
         add("tikhonov", "relative", None, rankdef=True, zero_alpha=True, cost=3)
         add("cutoff", "relative", None, rankdef=True, zero_alpha=True, cost=3)
+        add("tikhonov", "absolute", None, rankdef="fold1", cost=4)  # the two folds have different ranks
+        add("cutoff", "absolute", None, rankdef="fold2", cost=4)
         if tier == "thorough":
             add("tikhonov", "absolute", None)
             add("tikhonov", "relative", "neg_root_mean_squared_error", ordered=True, cost=20)
@@ -149,8 +151,9 @@ class C10(runner.Check):
             c.assume(s1[0] > s1[1])
             c.assume(s2[0] > s2[1])
             c.assume(s1[0] > s2[0])
-        if cfg.get("rankdef"):
+        if cfg.get("rankdef") in (True, "fold1"):
             s1[1] = c.const(0)
+        if cfg.get("rankdef") in (True, "fold2"):
             s2[1] = c.const(0)
         A = arrays.exact(Q1) @ arrays.array([[s1[0], 0], [0, s1[1]]], dtype=object) @ Va.T
         B = arrays.exact(Q2) @ arrays.array([[s2[0], 0], [0, s2[1]]], dtype=object) @ Va.T
@@ -246,8 +249,10 @@ class C10(runner.Check):
         Q2 = np.array(linalg.frame(n2, cfg["Q"][1]), dtype=float)[:, :2]
         s1 = [float(values.get("s1_0", 2.0)), float(values.get("s1_1", 0.7))]
         s2 = [float(values.get("s2_0", 1.3)), float(values.get("s2_1", 0.4))]
-        if cfg.get("rankdef"):
-            s1[1] = s2[1] = 0.0
+        if cfg.get("rankdef") in (True, "fold1"):
+            s1[1] = 0.0
+        if cfg.get("rankdef") in (True, "fold2"):
+            s2[1] = 0.0
         A, B = Q1 @ np.diag(s1) @ V.T, Q2 @ np.diag(s2) @ V.T
         rng = np.random.RandomState(2)
         y = np.array([[float(values.get(f"y_{i}_{j}", rng.randn())) for j in range(p)] for i in range(ntot)])
